@@ -202,6 +202,14 @@ def malformed_job(job):
                 elif kind == 'undeclared':
                     circuit(ops=mk_op(variables={'x': 'output(0.5)', 'u': 'input(0.0)'})).run(
                         outputs={'o': pre + 'n0/li/x'}, **run_kw)
+                elif kind == 'undeclared_sibling':
+                    # the undeclared name IS declared by another operator of the same node (no edges: both operators are
+                    # parsed side by side); operators do not see each other's variables
+                    from pyrates import OperatorTemplate as _OT
+                    aux = _OT(name='aux', path=None, equations=[f"z' = (w - z)/{job['name']}"],
+                              variables={'z': 'variable(0.3)', 'w': 'input(0.0)'})
+                    order = [mk_op(), aux] if job.get('first', True) else [aux, mk_op()]
+                    circuit(edges=[], node_ops=order).run(outputs={'o': pre + 'n0/li/x'}, **run_kw)
                 elif kind == 'reserved':
                     o = mk_op(eqs=(f"x' = (u - x)/tau + {job['name']}",),
                               variables={'x': 'output(0.5)', 'u': 'input(0.0)', 'tau': 2.0, job['name']: 1.0})
@@ -286,6 +294,10 @@ def malformed_jobs(tier):
                               must='raise' if i == 1 else 'warn',
                               key=f"node_values:component{i}:hier={hier}:vec={vec}"))
         J.append(dict(kind='undeclared', vectorize=vec, must='raise', key=f"undeclared-variable:vec={vec}"))
+        for nm in ('tau', 'u'):
+            for first in (True, False):
+                J.append(dict(kind='undeclared_sibling', vectorize=vec, must='raise', name=nm, first=first,
+                              key=f"undeclared-variable-declared-by-sibling-operator:{nm}:sibling-first={first}:vec={vec}"))
         for name in ('y', 'dy', 'pi', 'E', 'beta', 'exp', 'x_buffer', 'a_idx', 'source_idx'):
             J.append(dict(kind='reserved', vectorize=vec, name=name, must='raise', key=f"reserved:{name}:vec={vec}"))
             # the same declaration with a value for that variable supplied from outside the operator
